@@ -1491,12 +1491,16 @@ impl<K: Kind> WorldApi for World<K> {
         o.roots = views.iter().map(|v| K::dec(v.prefix())).collect();
         let mut logs: Vec<Vec<(u64, u8)>> = Vec::new();
         if plan.threaded {
+            let barrier = std::sync::Barrier::new(views.len());
+            let barrier = &barrier;
             std::thread::scope(|sc| {
                 let hs: Vec<_> = views
                     .into_iter()
                     .enumerate()
                     .map(|(wid, v)| {
                         sc.spawn(move || {
+                            // start all workers together so that they really overlap
+                            barrier.wait();
                             let mut log = Vec::new();
                             worker::<K>(v, wid as u8, plan, &mut log);
                             log
